@@ -5,9 +5,12 @@ from ..summary import Item, items, is_ok, bv
 
 ID = 'C05'
 # fixed witnesses: addresses around the 32-bit boundary and with zero nibbles in the middle, every receiver kind
-ENGINE_B = {'template': 't_impl', 'kinds': ['addrcall_'], 'max_quick': 14, 'max_thorough': 64, 'abi': True,
+ENGINE_B = [{'template': 't_impl', 'kinds': ['addrcall_'], 'max_quick': 14, 'max_thorough': 64, 'abi': True,
             'fixed': [[8, 1, 0x100000000, 0, 1, 2, 0, 2, 0, 1, 0, 1], [8, 1, 0x7FF600123456, 0, 2, 1, 0, 0, 0, 0, 0, 1], [8, 1, 0xFFFFFFFF, 0, 0, 0, 0, 0, 0, 1, 0, 1],
-                      [8, 1, 0x101000000, 0, 1, 3, 0, 2, 3, 2, 3, 0], [8, 1, 0x7FFFFFFFFFFFFFF0, 0, 1, 0, 0, 0, 0, 0, 0, 1]]}
+                      [8, 1, 0x101000000, 0, 1, 3, 0, 2, 3, 2, 3, 0], [8, 1, 0x7FFFFFFFFFFFFFF0, 0, 1, 0, 0, 0, 0, 0, 0, 1]]},
+            # impl block next to inherited / virtual functions: every declared wrapper is there and calls its own address
+            {'template': 't_implname', 'kinds': ['addrcall_'], 'max_quick': 4, 'max_thorough': 16,
+             'fixed': [[8, 0x140001000, 0x140002000, 2, 0, 3, 4, 1, 2], [8, 4096, 8192, 2, 0, 0, 3, 1, 0]]}]
 CC = ['C', 'cdecl', 'stdcall', 'fastcall', 'thiscall', 'vectorcall', 'system', 'bogus']
 ARGT = {0: ['raw', 'u32'], 1: ['raw', 'u64'], 2: ['const*', ['raw', 'm::T']], 3: ['mut*', ['raw', 'u8']], 5: ['raw', 'bool']}
 ARGS_TXT = {0: 'u32', 1: 'u64', 2: '*const T', 3: '*mut u8', 4: 'Nope', 5: 'bool', 6: '*const Nope'}
@@ -17,7 +20,10 @@ EXPLANATION = ('Template t_impl (type T with one impl function: receiver none/&s
                'type_definition::build.  Accepted leaves: the function recorded for T must have body Address{A} with A the declared '
                'value, the declared receiver and parameters in order with the declared types, and the declared return type.  '
                'Rejected leaves: the solver must refute that the declaration was acceptable; an acceptable declaration is one with '
-               'an address that fits usize and only resolvable types.')
+               'an address that fits usize and only resolvable types.  Template t_implname puts one or two address-bound functions '
+               '(g0, and g1 or a second g0) next to names that may already be taken — a virtual function of T, a public or private '
+               'function inherited from a #[base] field: accepted leaves must contain every declared function exactly once with its '
+               'own address and receiver, and a description is rejected exactly when a declared name is already taken.')
 ASSUMPTIONS = ['the emitted wrapper text (backends/rust.rs build_function: transmute of the address, argument order in the call) and '
                'its run-time behaviour are not covered by this check: calling an absolute address cannot be executed by the engines available here',
                'address literal spelling (decimal/hex/underscores) is a parser matter and outside this check']
@@ -49,7 +55,56 @@ def slices(tier, rng):
             if tier == 'quick' and ps == 8 and sub == 'args': continue
             out.append(Slice('%s-ps%d' % (sub, ps), 't_impl', 12, lambda a, ps=ps, sub=sub: assume(a, ps, sub),
                              opts={'must_reach': ['ok', 'err']}))
+        out.append(Slice('names-ps%d' % ps, 't_implname', 9, lambda a, ps=ps: names_assume(a, ps), opts={'must_reach': ['ok', 'err']}))
     return out
+
+
+# ---- t_implname: declared functions next to names that are already taken
+def names_assume(a, ps):
+    return [a[0] == ps, z3.UGE(a[3], 1), z3.ULE(a[3], 2), z3.ULE(a[4], 1), z3.ULE(a[5], 3), z3.ULE(a[6], 4), z3.ULE(a[7], 2), z3.ULE(a[8], 2),
+            z3.Implies(a[3] == 1, z3.And(a[4] == 0, a[2] == 0, a[8] == 0))]
+
+
+def names_taken(a):
+    """(g0 taken before the impl block, g1 taken before the impl block) as z3 conditions: names of T's own virtual functions and of the
+    public functions injected from the base"""
+    g0 = z3.Or(a[5] == 1, a[6] == 1)
+    g1 = z3.Or(a[5] == 2, a[6] == 2)
+    return g0, g1
+
+
+def names_acceptable(a):
+    g0, g1 = names_taken(a)
+    second = z3.Implies(a[3] == 2, z3.And(a[4] == 0, z3.Not(g1), a[2] >= 0))
+    return z3.And(z3.Not(g0), a[1] >= 0, second)
+
+
+def names_queries(a, leaf, py):
+    acc = names_acceptable(a)
+    if not is_ok(py): return [Query('rejected-implies-a-declared-name-is-taken', acc)]
+    it = Item(items(py)['m::T'])
+    bad = [z3.Not(acc)]
+    RECV = {0: None, 1: '&self', 2: '&mut self'}
+    def one(name, addr, recv_param, when):
+        fns = [x for x in it.functions if x.name == name]
+        if len(fns) != 1: return [when]
+        fn = fns[0]; out = []
+        if fn.body[0] != 'address': return [when]
+        out.append(z3.And(when, bv(fn.body[1]) != addr))
+        args = list(fn.args)
+        recv = args[0] if args and isinstance(args[0], str) else None
+        for k, r in RECV.items():
+            if recv != r: out.append(z3.And(when, recv_param == k))
+        return out
+    bad += one('g0', a[1], a[7], z3.BoolVal(True))
+    bad += one('g1', a[2], a[8], z3.And(a[3] == 2, a[4] == 0))
+    # nothing else next to them but what the base contributes (one forwarder per public base function)
+    others = [x for x in it.functions if x.name not in ('g0', 'g1') or x.body[0] != 'address']
+    n_inj = z3.If(z3.Or(a[6] == 1, a[6] == 2, a[6] == 4), z3.BitVecVal(1, 64), z3.BitVecVal(0, 64))
+    bad.append(n_inj != len(others))
+    bad.append(z3.And(a[3] == 1, z3.BoolVal(len(it.functions) - len(others) != 1)))
+    bad.append(z3.And(a[3] == 2, z3.BoolVal(len(it.functions) - len(others) != 2)))
+    return [Query('every-declared-wrapper-present-once-with-its-own-address', z3.Or(*bad))]
 
 
 def acceptable(a):
@@ -68,6 +123,7 @@ def expected_cc(f):
 
 def leaf_queries(I, a, leaf, py, sl):
     if leaf.kind != 'ret': return [Query('no-%s' % leaf.kind, z3.BoolVal(True))]
+    if sl.template == 't_implname': return names_queries(a, leaf, py)
     acc = acceptable(a)
     if not is_ok(py): return [Query('rejected-implies-unacceptable', acc)]
     f = a[4:12]
@@ -105,12 +161,22 @@ def leaf_queries(I, a, leaf, py, sl):
 
 
 def region_env(a, sl):
+    if sl.template == 't_implname': return {'acceptable': names_acceptable(a)}
     f = a[4:12]
     return {'f': f, 'ret_unresolvable': z3.Or(f[5] == 5, f[5] == 7), 'acceptable': acceptable(a)}
 
 
 def describe(template, args):
     a = [int(x) for x in args]
+    if template == 't_implname':
+        R = {0: '', 1: '&self', 2: '&mut self'}
+        vn = {1: 'g0', 2: 'g1', 3: 'h'}; bn = {1: 'pub fn g0', 2: 'pub fn g1', 3: 'fn g0', 4: 'pub fn h'}
+        out = '// pointer size %d\n' % a[0]
+        if a[6]: out += 'type Bz { pub x: u32 }\nimpl Bz { #[address(256)] %s(&self) -> u32; }\n' % bn.get(a[6], '?')
+        out += 'type T { %s%s pub a: u32 }\n' % ('vftable { pub fn %s(&self); } ' % vn.get(a[5], '?') if a[5] else '', '#[base] pub b: Bz,' if a[6] else 'pub a2: u32,')
+        out += 'impl T {\n    #[address(%d)] pub fn g0(%s) -> u32;\n' % (a[1], ', '.join(x for x in (R.get(a[7], ''), 'a0: u32') if x))
+        if a[3] >= 2: out += '    #[address(%d)] pub fn %s(%s) -> u64;\n' % (a[2], 'g0' if a[4] else 'g1', R.get(a[8], ''))
+        return out + '}'
     def s64(v):
         v &= (1 << 64) - 1
         return v - (1 << 64) if v >> 63 else v
